@@ -2328,6 +2328,10 @@ func expand(nodes []Node) ([][]Node, bool) {
 	for _, n := range nodes {
 		var next [][]Node
 		for _, p := range paths {
+			if len(next) > maxPaths {
+				overflow = true
+				break // (the product of alternatives is cut off here, not after it has been built)
+			}
 			if _, done := endsInRet(p); done {
 				next = append(next, p)
 				continue
@@ -2338,6 +2342,10 @@ func expand(nodes []Node) ([][]Node, bool) {
 					bps, of := expand(b)
 					overflow = overflow || of
 					for _, bp := range bps {
+						if len(next) > maxPaths {
+							overflow = true
+							break
+						}
 						next = append(next, concat(p, bp))
 					}
 				}
@@ -2374,6 +2382,10 @@ func expand(nodes []Node) ([][]Node, bool) {
 				bps, of := expand(n.Body)
 				overflow = overflow || of
 				for _, bp := range bps {
+					if len(next) > maxPaths {
+						overflow = true
+						break
+					}
 					if r, isRet := endsInRet(bp); isRet && !r.Abort {
 						bp = bp[:len(bp)-1] // the helper returns; its caller goes on
 					}
